@@ -38,6 +38,16 @@
 //	    handled; k >= 1: it becomes done while the k-th Step runs).  looks: whether the
 //	    implementation was seen to look at the context in that loop (probed; sasl.go: 0).
 //
+// Round D:
+//
+//	srvg <top> <mid> <when> <smechs> <steps> <perm> <peer>   like srv with a negotiation context
+//	    that becomes done at the moment <when>: F<j> while peer element j is in flight (F0: before
+//	    the receiving loop's first test), S<k> inside the k-th Step (k >= 1), W<w> while the w-th
+//	    SASL element (from 0) is being written (cancelled inside the connection's Write).
+//	    top / mid: at which iterations of its loop the implementation was seen to test the context
+//	    before reading / after the Step (probed; one 0/1 per iteration 0..3, the last for all later
+//	    ones; sasl.go: 0000 0000).  (srvc lines of round C are still replayed.)
+//
 // sent: what the library wrote: auth/<mech>/<pl>, resp/<pl>, chal/<pl>, succ/<pl>,
 // fail/<condition>.  calls: the challenges handed to Step after Start (pl syntax).
 // perm: 'none' | 'any' | <userhex>/<passhex> - which credentials the permission
@@ -444,7 +454,27 @@ func negotiate(conn *nc.Conn, recv bool, f xmpp.StreamFeature) (res negResult) {
 	return negotiateCtx(context.Background(), conn, recv, f)
 }
 
+// hookConn lets a case act at the moment the library makes its n-th Write call (the context
+// becomes done while an element is being written).
+type hookConn struct {
+	*nc.Conn
+	writes  int
+	onWrite func(n int)
+}
+
+func (h *hookConn) Write(p []byte) (int, error) {
+	h.writes++
+	if h.onWrite != nil {
+		h.onWrite(h.writes)
+	}
+	return h.Conn.Write(p)
+}
+
 func negotiateCtx(ctx context.Context, conn *nc.Conn, recv bool, f xmpp.StreamFeature) (res negResult) {
+	return negotiateRW(ctx, conn, conn, recv, f)
+}
+
+func negotiateRW(ctx context.Context, conn *nc.Conn, rw io.ReadWriter, recv bool, f xmpp.StreamFeature) (res negResult) {
 	res.conn = conn
 	feat := instrument(f, &res)
 	neg := xmpp.NewNegotiator(func(*xmpp.Session, *xmpp.StreamConfig) xmpp.StreamConfig {
@@ -454,9 +484,9 @@ func negotiateCtx(ctx context.Context, conn *nc.Conn, recv bool, f xmpp.StreamFe
 		var s *xmpp.Session
 		var err error
 		if recv {
-			s, err = xmpp.ReceiveSession(ctx, conn, xmpp.Secure, neg)
+			s, err = xmpp.ReceiveSession(ctx, rw, xmpp.Secure, neg)
 		} else {
-			s, err = xmpp.NewSession(ctx, jid.MustParse("example.net"), jid.MustParse("user@example.net"), conn, xmpp.Secure, neg)
+			s, err = xmpp.NewSession(ctx, jid.MustParse("example.net"), jid.MustParse("user@example.net"), rw, xmpp.Secure, neg)
 		}
 		res.sessErr = err
 		if s != nil {
@@ -859,10 +889,44 @@ type srvCase struct {
 	allScripted bool
 	// pol != "": operation "srvp" (steps / the permission callback may panic)
 	pol string
-	// ctxOn: operation "srvc": the negotiation context is done from the cancel-th loop test on
-	ctxOn  bool
-	cancel int
-	looks  bool
+	// ctxOn: operation "srvg": the negotiation context becomes done at the moment `when`:
+	// F<j> while peer element j is in flight (j = 0: before the loop's first test), S<k> inside
+	// the k-th Step (k >= 1), W<w> while the w-th SASL element (from 0) is being written.
+	// top / mid: at which iterations the implementation was seen to test the context (probed).
+	ctxOn    bool
+	when     string
+	top, mid string
+}
+
+// moments: every moment at which the context of an exchange of n peer elements can become
+// done: element j in flight, inside Step k, while SASL element w is being written
+func moments(n int) []string {
+	out := []string{"F0"}
+	for j := 0; j < n; j++ {
+		if j > 0 {
+			out = append(out, fmt.Sprintf("F%d", j))
+		}
+		out = append(out, fmt.Sprintf("S%d", j+1), fmt.Sprintf("W%d", j))
+	}
+	return out
+}
+
+// whenOf: the round C numbering (0: first element in flight; k >= 1: inside the k-th Step)
+func whenOf(k int) string {
+	if k == 0 {
+		return "F0"
+	}
+	return fmt.Sprintf("S%d", k)
+}
+
+func parseWhen(w string) (kind byte, n int, err error) {
+	if len(w) < 2 || strings.IndexByte("FSW", w[0]) < 0 {
+		return 0, 0, fmt.Errorf("bad moment %q", w)
+	}
+	if _, e := fmt.Sscanf(w[1:], "%d", &n); e != nil || (w[0] == 'S' && n == 0) {
+		return 0, 0, fmt.Errorf("bad moment %q", w)
+	}
+	return w[0], n, nil
 }
 
 func (c srvCase) line() string {
@@ -873,7 +937,7 @@ func (c srvCase) line() string {
 		return fmt.Sprintf("srvp %s %s %s %s %s", c.pol, encNames(c.mechs), fieldSteps(c.steps), c.perm, common.Join(c.peer, ","))
 	}
 	if c.ctxOn {
-		return fmt.Sprintf("srvc %s %d %s %s %s %s", common.B(c.looks), c.cancel, encNames(c.mechs), fieldSteps(c.steps), c.perm, common.Join(c.peer, ","))
+		return fmt.Sprintf("srvg %s %s %s %s %s %s %s", c.top, c.mid, c.when, encNames(c.mechs), fieldSteps(c.steps), c.perm, common.Join(c.peer, ","))
 	}
 	op := "srv"
 	if c.allScripted {
@@ -960,41 +1024,49 @@ func permFunc(spec string, t *trace) (func(*sasl.Negotiator) bool, error) {
 	}, nil
 }
 
-func runServer(r *common.Run, c srvCase, class string) error {
-	var t trace
-	mechs := buildMechs(c.mechs, c.steps, &t, c.allScripted)
+// execServer runs one receiving session of the case on the code under test.
+func execServer(c srvCase, tp *trace) (res negResult, delivered []string, conn *nc.Conn, err error) {
+	t := tp
+	mechs := buildMechs(c.mechs, c.steps, t, c.allScripted)
 	if len(mechs) == 0 {
-		return fmt.Errorf("server case without mechanisms")
+		return res, nil, nil, fmt.Errorf("server case without mechanisms")
 	}
-	perm, err := permFunc(c.perm, &t)
+	perm, err := permFunc(c.perm, t)
 	if err != nil {
-		return err
+		return res, nil, nil, err
 	}
 	ctx, cancelCtx := context.WithCancel(context.Background())
 	defer cancelCtx()
-	if c.ctxOn && c.cancel >= 1 {
+	var wk byte
+	var wn int
+	if c.ctxOn {
+		if wk, wn, err = parseWhen(c.when); err != nil {
+			return res, nil, nil, err
+		}
+	}
+	if wk == 'S' {
 		t.onStep = func(n int) {
-			if n == c.cancel {
+			if n == wn {
 				cancelCtx()
 			}
 		}
 	}
 	chunks := []nc.Chunk{nc.S(nc.Header("jabber:client", "", "", "example.net"))}
 	restarted := func(w []byte) bool { return bytes.Count(w, []byte("<?xml")) > 1 }
-	var delivered []string
 	for k, ev := range c.peer {
 		ev, k := ev, k
 		x, err := srvEventXML(ev)
 		if err != nil {
-			return err
+			return res, nil, nil, err
 		}
 		chunks = append(chunks, nc.Chunk{Dyn: func(w []byte) []byte {
 			if restarted(w) || bytes.Contains(w, []byte("<success")) {
 				return nil
 			}
 			delivered = append(delivered, ev)
-			if c.ctxOn && c.cancel == 0 && k == 0 {
-				// the first element is in flight: the context is done before the loop's first test
+			if wk == 'F' && k == wn {
+				// this element is in flight (the first one: the context is done before the
+				// loop's first test)
 				cancelCtx()
 			}
 			return []byte(x)
@@ -1006,12 +1078,42 @@ func runServer(r *common.Run, c srvCase, class string) error {
 		}
 		return nil
 	}})
-	conn := nc.NewConn(chunks...)
+	conn = nc.NewConn(chunks...)
 	if c.wfail > 0 {
 		// writes 1 and 2 are the stream header and the features list
 		conn.FailWriteCall = 2 + c.wfail
 	}
-	res := negotiateCtx(ctx, conn, true, xmpp.SASLServer(perm, mechs...))
+	var rw io.ReadWriter = conn
+	if wk == 'W' {
+		rw = &hookConn{Conn: conn, onWrite: func(n int) {
+			if n == 3+wn {
+				cancelCtx()
+			}
+		}}
+	}
+	res = negotiateRW(ctx, conn, rw, true, xmpp.SASLServer(perm, mechs...))
+	return res, delivered, conn, nil
+}
+
+func countSent(conn *nc.Conn, local string) int {
+	streams, _ := nc.ParseWritten(conn.Written())
+	n := 0
+	if len(streams) > 0 {
+		for _, e := range streams[0].Elems {
+			if e.Name.Space == nsSASL && e.Name.Local == local {
+				n++
+			}
+		}
+	}
+	return n
+}
+
+func runServer(r *common.Run, c srvCase, class string) error {
+	var t trace
+	res, delivered, conn, err := execServer(c, &t)
+	if err != nil {
+		return err
+	}
 
 	streams, perr := nc.ParseWritten(conn.Written())
 	var sent []string
@@ -1318,7 +1420,10 @@ func plainPayloads() []string {
 type policies struct {
 	srvPanic string // which panic values negotiateServer recovers: 3 x 0/1 (error, string, other)
 	cliPanic string // the same for negotiateClient
-	looks    bool   // negotiateServer was seen to give up with the context's error
+	// at which iterations of its loop negotiateServer was seen to give up with the context's
+	// error: before reading the element (top) / after the Step, before writing (mid); one
+	// character per iteration 0..3, the last one standing for all later iterations
+	top, mid string
 }
 
 const plainAccepted = "AHVzZXIAc2VjcmV0" // \x00user\x00secret
@@ -1353,16 +1458,27 @@ func probe() policies {
 		resc := negotiate(cc, false, xmpp.SASL("", "secret", m))
 		p.cliPanic += bit(tc.panicked && resc.panicV == "")
 	}
-	ctx, cancel := context.WithCancel(context.Background())
-	defer cancel()
-	var t trace
-	perm, _ := permFunc("any", &t)
-	conn := nc.NewConn(nc.S(nc.Header("jabber:client", "", "", "example.net")), nc.Chunk{Dyn: func([]byte) []byte {
-		cancel()
-		return []byte("<auth xmlns='" + nsSASL + "' mechanism='PLAIN'>" + plainAccepted + "</auth>")
-	}})
-	res := negotiateCtx(ctx, conn, true, xmpp.SASLServer(perm, wrapped(sasl.Plain, &t)))
-	p.looks = res.called > 0 && res.panicV == "" && errors.Is(res.err, context.Canceled) && res.mask&xmpp.Authn == 0
+	// the context: a six-Step mechanism, the context becomes done just before the top test of
+	// iteration i (first element in flight / while challenge i-1 is written) resp. inside the
+	// Step of iteration i; where the run ends tells which test noticed
+	mm := step{kind: "m", resp: []byte{1}}
+	pc := srvCase{mechs: []string{"M1"}, steps: []step{mm, mm, mm, mm, mm, {kind: "d"}}, perm: "any",
+		peer: []string{"AM1/v01", "R-", "R-", "R-", "R-", "R-"}, ctxOn: true}
+	for i := 0; i < 4; i++ {
+		pc.when = "F0"
+		if i > 0 {
+			pc.when = fmt.Sprintf("W%d", i-1)
+		}
+		var t trace
+		res, _, conn, err := execServer(pc, &t)
+		gaveUp := err == nil && res.called > 0 && res.panicV == "" && errors.Is(res.err, context.Canceled) && res.mask&xmpp.Authn == 0
+		p.top += bit(gaveUp && t.nSteps == i)
+		pc.when = fmt.Sprintf("S%d", i+1)
+		var t2 trace
+		res, _, conn, err = execServer(pc, &t2)
+		gaveUp = err == nil && res.called > 0 && res.panicV == "" && errors.Is(res.err, context.Canceled) && res.mask&xmpp.Authn == 0
+		p.mid += bit(gaveUp && t2.nSteps == i+1 && countSent(conn, "challenge") == i)
+	}
 	return p
 }
 
@@ -1398,7 +1514,7 @@ func Run(r *common.Run) error {
 	}
 
 	pol := probe()
-	r.Exhaustive = append(r.Exhaustive, fmt.Sprintf("probed: panics recovered by negotiateServer (error,string,other)=%s, by negotiateClient=%s; negotiateServer gives up on a done context=%v", pol.srvPanic, pol.cliPanic, pol.looks))
+	r.Exhaustive = append(r.Exhaustive, fmt.Sprintf("probed: panics recovered by negotiateServer (error,string,other)=%s, by negotiateClient=%s; negotiateServer tests the context before reading (iterations 0..3+)=%s, after the Step=%s", pol.srvPanic, pol.cliPanic, pol.top, pol.mid))
 	genRoundC(r, rnd, pol)
 	genRoundD(r, rnd)
 
@@ -1809,10 +1925,10 @@ func genRoundC(r *common.Run, rnd *common.Rand, pol policies) {
 	d := step{kind: "d"}
 	for _, peer := range [][]string{{"B"}, {"Rv01"}, {"AMX/v01"}, {"AM1/bad"}} {
 		// the loop was left on a done context and the success tail ran
-		_ = runServer(r, srvCase{mechs: []string{"M1", "M2"}, steps: []step{d}, perm: "any", peer: peer, ctxOn: true, cancel: 0, looks: pol.looks}, "srv-ctx-corpus")
+		_ = runServer(r, srvCase{mechs: []string{"M1", "M2"}, steps: []step{d}, perm: "any", peer: peer, ctxOn: true, when: whenOf(0), top: pol.top, mid: pol.mid}, "srv-ctx-corpus")
 	}
-	_ = runServer(r, srvCase{mechs: []string{"PLAIN"}, perm: "none", peer: []string{"APLAIN/" + plainPayloads()[0]}, ctxOn: true, cancel: 0, looks: pol.looks}, "srv-ctx-corpus")
-	_ = runServer(r, srvCase{mechs: []string{"M1"}, steps: []step{m(1), m(2), d}, perm: "any", peer: []string{"AM1/v01", "Rv02"}, ctxOn: true, cancel: 1, looks: pol.looks}, "srv-ctx-corpus")
+	_ = runServer(r, srvCase{mechs: []string{"PLAIN"}, perm: "none", peer: []string{"APLAIN/" + plainPayloads()[0]}, ctxOn: true, when: whenOf(0), top: pol.top, mid: pol.mid}, "srv-ctx-corpus")
+	_ = runServer(r, srvCase{mechs: []string{"M1"}, steps: []step{m(1), m(2), d}, perm: "any", peer: []string{"AM1/v01", "Rv02"}, ctxOn: true, when: whenOf(1), top: pol.top, mid: pol.mid}, "srv-ctx-corpus")
 	// a recovered panic whose value is not an error read as "completed without error"
 	_ = runServer(r, srvCase{mechs: []string{"M1", "M2"}, steps: []step{{kind: "ps"}}, perm: "any", peer: []string{"AM1/-"}, pol: pol.srvPanic}, "srv-panic-corpus")
 	_ = runServer(r, srvCase{mechs: []string{"PLAIN"}, perm: "panic-s", peer: []string{"APLAIN/" + plainPayloads()[0]}, pol: pol.srvPanic}, "srv-panic-corpus")
@@ -1872,21 +1988,21 @@ func genRoundC(r *common.Run, rnd *common.Rand, pol policies) {
 	for si, sc := range sscripts {
 		for n := 0; n <= sdepth; n++ {
 			enumerate(srvAlphabet, n, func(peer []string) {
-				for k := 0; k <= n; k++ {
-					_ = runServer(r, srvCase{mechs: []string{"M1", "M2"}, steps: sc, perm: "any", peer: peer, ctxOn: true, cancel: k, looks: pol.looks}, fmt.Sprintf("srv-ctx%d", si))
+				for _, w := range moments(n) {
+					_ = runServer(r, srvCase{mechs: []string{"M1", "M2"}, steps: sc, perm: "any", peer: peer, ctxOn: true, when: w, top: pol.top, mid: pol.mid}, fmt.Sprintf("srv-ctx%d", si))
 				}
 			})
 		}
-		for k := 0; k <= 4; k++ {
-			_ = runServer(r, srvCase{mechs: []string{"M1"}, steps: sc, perm: "any", peer: []string{"AM1/v01", "Rv02", "R-", "R-"}, ctxOn: true, cancel: k, looks: pol.looks}, fmt.Sprintf("srv-ctx%d", si))
+		for _, w := range moments(4) {
+			_ = runServer(r, srvCase{mechs: []string{"M1"}, steps: sc, perm: "any", peer: []string{"AM1/v01", "Rv02", "R-", "R-"}, ctxOn: true, when: w, top: pol.top, mid: pol.mid}, fmt.Sprintf("srv-ctx%d", si))
 		}
 	}
 	for _, perm := range []string{uh + "/" + ph, "none", "any"} {
 		for _, p := range plainPayloads() {
 			for _, pre := range [][]string{{}, {"Rv01"}, {"APLAIN/" + plainPayloads()[1]}} {
-				for k := 0; k <= 1; k++ {
+				for _, w := range []string{"F0", "S1", "W0", "F1", "S2", "W1"} {
 					peer := append(append([]string{}, pre...), "APLAIN/"+p)
-					_ = runServer(r, srvCase{mechs: []string{"PLAIN", "M1"}, steps: []step{m(1), {kind: "a"}}, perm: perm, peer: peer, ctxOn: true, cancel: k, looks: pol.looks}, "srv-plain-ctx")
+					_ = runServer(r, srvCase{mechs: []string{"PLAIN", "M1"}, steps: []step{m(1), {kind: "a"}}, perm: perm, peer: peer, ctxOn: true, when: w, top: pol.top, mid: pol.mid}, "srv-plain-ctx")
 				}
 			}
 		}
@@ -1917,7 +2033,7 @@ func genRoundC(r *common.Run, rnd *common.Rand, pol policies) {
 		} else {
 			sc = append(sc, step{kind: []string{"d", "d", "a", "e"}[rnd.Intn(4)]})
 			perm := []string{"any", "none", uh + "/" + ph}[rnd.Intn(3)]
-			_ = runServer(r, srvCase{mechs: []string{"M2", "PLAIN", "M1"}, steps: sc, perm: perm, peer: peer, ctxOn: true, cancel: rnd.Intn(n + 1), looks: pol.looks}, "srv-ctx-random")
+			_ = runServer(r, srvCase{mechs: []string{"M2", "PLAIN", "M1"}, steps: sc, perm: perm, peer: peer, ctxOn: true, when: moments(n)[rnd.Intn(3*n)], top: pol.top, mid: pol.mid}, "srv-ctx-random")
 		}
 	}
 }
@@ -1990,9 +2106,16 @@ func replayLine(r *common.Run, l string) error {
 		if err != nil {
 			return err
 		}
+		// a round C line: looks at the top of every iteration or nowhere
 		k := 0
 		fmt.Sscanf(f[2], "%d", &k)
-		return runServer(r, srvCase{mechs: decNames(f[3]), steps: st, perm: f[5], peer: list(f[6]), ctxOn: true, cancel: k, looks: f[1] == "1"}, "replay")
+		return runServer(r, srvCase{mechs: decNames(f[3]), steps: st, perm: f[5], peer: list(f[6]), ctxOn: true, when: whenOf(k), top: f[1], mid: "0"}, "replay")
+	case f[0] == "srvg" && len(f) == 8:
+		st, err := steps(f[5])
+		if err != nil {
+			return err
+		}
+		return runServer(r, srvCase{mechs: decNames(f[4]), steps: st, perm: f[6], peer: list(f[7]), ctxOn: true, when: f[3], top: f[1], mid: f[2]}, "replay")
 	case (f[0] == "cli" || f[0] == "clis") && len(f) == 5:
 		st, err := steps(f[3])
 		if err != nil {
